@@ -1,5 +1,5 @@
 """Property -> rules table."""
-import lattice_rules, agg_rules, lib_rules, byods_rules, gen_driver, witness_rules, macro_rules
+import lattice_rules, agg_rules, lib_rules, byods_rules, byods_rules2, gen_driver, witness_rules, macro_rules
 
 
 def run_C16(ctx, rep):
@@ -35,6 +35,10 @@ def run_C10(ctx, rep):
     byods_rules.check_L20(ctx, rep, ['union_find', 'eqrel_ind', 'eqrel_ternary', 'utils'])
     byods_rules.check_L23(ctx, rep, ['eqrel_ternary', 'eqrel_ind', 'ceqrel_ind'])
     rep.floor('L23', 5)
+    byods_rules2.check_L22(ctx, rep, 'eqrel_ternary')
+    for sc in ('eqrel_ternary', 'eqrel_ind', 'ceqrel_ind'):
+        byods_rules2.check_L24(ctx, rep, sc)
+    rep.floor('L22', 1); rep.floor('L24', 1)
     rep.floor('L20', 2)
     for sc in ('eqrel_ternary', 'eqrel_ind'):
         byods_rules.check_L18(ctx, rep, sc)
@@ -54,6 +58,10 @@ def run_C11(ctx, rep):
     byods_rules.check_L20(ctx, rep, ['binary_rel', 'trrel_binary', 'trrel_binary_ind', 'utils'])
     byods_rules.check_L23(ctx, rep, ['trrel_binary_ind', 'trrel_ternary_ind', 'trrel_binary', 'binary_rel'])
     rep.floor('L23', 8)
+    byods_rules2.check_L22(ctx, rep, 'trrel_ternary_ind')
+    for sc in ('trrel_ternary_ind', 'trrel_binary_ind'):
+        byods_rules2.check_L24(ctx, rep, sc)
+    rep.floor('L22', 2); rep.floor('L24', 1)
     rep.floor('L20', 5)
     rep.floor('L21', 4)
     for sc in ('trrel_ternary_ind', 'trrel_binary_ind'):
@@ -72,6 +80,12 @@ def run_C12(ctx, rep):
     byods_rules.check_L20(ctx, rep, ['trrel_union_find', 'utils'])
     byods_rules.check_L23(ctx, rep, ['adaptor::bin_rel_to_ternary', 'trrel_union_find_binary_ind'])
     rep.floor('L23', 10)
+    byods_rules2.check_L22(ctx, rep, 'adaptor::bin_rel_to_ternary')
+    for sc in ('adaptor::bin_rel_to_ternary', 'adaptor::bin_rel::'):
+        byods_rules2.check_L24(ctx, rep, sc)
+    byods_rules2.check_L25(ctx, rep, 'trrel_union_find_binary_ind', 'trrel_union_find_binary_ind::TrRelDelta')
+    byods_rules2.check_L26(ctx, rep, 'adaptor::bin_rel_to_ternary', ['trrel_union_find_binary_ind'])
+    rep.floor('L22', 2); rep.floor('L24', 1); rep.floor('L25', 6); rep.floor('L26', 2)
     rep.floor('L20', 4)
     rep.floor('L21', 4)
     byods_rules.check_L16(ctx, rep, ['trrel_union_find'])
